@@ -29,12 +29,16 @@ func TestC13Rapid(t *testing.T) {
 			gp[rapid.IntRange(1, nGen-1).Draw(rt, "zeroAt")] = -1
 			c.Class("genesis-entry-without-power")
 		}
+		valWorldLongOps = rapid.IntRange(0, 3).Draw(rt, "longOperators") == 0
+		if valWorldLongOps {
+			c.Class("operators-with-32-byte-addresses")
+		}
 		valWorldSecp = rapid.IntRange(0, 3).Draw(rt, "secpKeys") == 0
 		if valWorldSecp {
 			c.Class("chain-admitting-secp256k1-consensus-keys")
 		}
 		w, err := newValWorld(nGen, maxVals, uint32(rapid.SampledFrom([]int{0, 1, 3, 100}).Draw(rt, "retention")), gp...)
-		valWorldSecp = false
+		valWorldSecp, valWorldLongOps = false, false
 		if err != nil {
 			rt.Fatalf("C13 violated at genesis: %v", err)
 		}
@@ -224,4 +228,50 @@ func TestC13Exhaustive(t *testing.T) {
 		dfs(root, "", 0)
 	}
 	rec.ExhaustiveSubspace(fmt.Sprintf("all sequences of %d tokens from {add(op i,key j) for 3x3, remove(op i), block boundary} from genesis sets of 1 and 2 validators (max 3, retention 2), each closed by a block boundary", depth))
+}
+
+// TestC13LongRetention: a retention above ten thousand entries is honoured as configured (bounded: one
+// chain, 10,100 blocks): every height inside the configured window has its entry, the ones outside are gone.
+func TestC13LongRetention(t *testing.T) {
+	if cfgShard != 0 {
+		return
+	}
+	rec := evid.For("C13")
+	const retention = 10050
+	w, err := newValWorld(2, 5, retention)
+	if err != nil {
+		t.Fatal(err)
+	}
+	l2 := w.l2
+	first := l2.Ctx.BlockHeight()
+	for j := 0; j < retention+50; j++ {
+		if err := l2.BeginBlock(); err != nil {
+			t.Fatal(err)
+		}
+		if _, err := l2.EndBlock(); err != nil {
+			t.Fatal(err)
+		}
+		l2.NextBlock(time.Second)
+	}
+	if err := l2.BeginBlock(); err != nil {
+		t.Fatal(err)
+	}
+	h := l2.Ctx.BlockHeight()
+	if p, _ := l2.K.GetParams(l2.Ctx); p.HistoricalEntries != retention {
+		t.Fatalf("harness: retention is %d", p.HistoricalEntries)
+	}
+	for _, hh := range []int64{h, h - 1, h - 5000, h - 9999, h - 10000, h - 10001, h - retention + 1} {
+		if hh < first {
+			continue
+		}
+		if _, err := l2.K.GetHistoricalInfo(l2.Ctx, hh); err != nil {
+			caseFail(t, "retention-10050", "C13 violated: historical info of height %d is missing at height %d although the configured retention is %d entries: %v", hh, h, retention, err)
+		}
+	}
+	if _, err := l2.K.GetHistoricalInfo(l2.Ctx, h-retention-1); err == nil {
+		caseFail(t, "retention-10050", "C13 violated: historical info of height %d is still stored at height %d, outside the retention of %d", h-retention-1, h, retention)
+	}
+	c := rec.Begin()
+	c.Class("retention-above-ten-thousand-entries")
+	c.Done()
 }
